@@ -29,7 +29,8 @@ theorem treeG_setAt {t : ObjectTree} (h : TreeG t) (i : Nat) (f : Obj → Obj) (
 
 /-- what `newObject` stores in the slot it returns -/
 theorem newObject_slot {t t' : ObjectTree} {op info th n : Nat} (e : t.newObject op info th = .ok (t', n)) :
-    (slot t' n).opcode = op ∧ (slot t' n).infoIndex = info ∧ t.pool.size ≤ t'.pool.size ∧ t'.pool.size ≤ t.pool.size + 1 := by
+    (slot t' n).opcode = op ∧ (slot t' n).infoIndex = info ∧ t.pool.size ≤ t'.pool.size ∧ t'.pool.size ≤ t.pool.size + 1 ∧
+    (slot t' n).name = (slot t n).name ∧ (slot t' n).tableHandle = th := by
   unfold ObjectTree.newObject at e
   split at e
   · rename_i hh
@@ -50,10 +51,15 @@ theorem newObject_slot {t t' : ObjectTree} {op info th n : Nat} (e : t.newObject
       obtain ⟨rfl, rfl⟩ := e
       rw [slot_setAt _ _ _ _ hlt']
       simp
+      rfl
   · simp only [pure, Except.pure, Except.ok.injEq, Prod.mk.injEq] at e
     obtain ⟨rfl, rfl⟩ := e
     rw [slot_push]
     simp
+    have : t.pool[t.pool.size]? = none := by simp
+    unfold slot
+    rw [this]
+    rfl
 
 theorem treeG_newObject {t : ObjectTree} (h : TreeG t) (opcode info th : Nat) (hsz : t.pool.size < INV)
     (hop : opcode ≠ pOpIntFreedObject) (hinfo : InfoOK info) :
@@ -61,7 +67,7 @@ theorem treeG_newObject {t : ObjectTree} (h : TreeG t) (opcode info th : Nat) (h
       (slot t' n).opcode = opcode ∧ (slot t' n).infoIndex = info ∧
       t.pool.size ≤ t'.pool.size ∧ t'.pool.size ≤ t.pool.size + 1 := by
   obtain ⟨t', n, e, w', fr⟩ := newObject_wf h.wf opcode info th hsz hop
-  obtain ⟨h1, h2, h3, h4⟩ := newObject_slot e
+  obtain ⟨h1, h2, h3, h4, _, _⟩ := newObject_slot e
   refine ⟨t', n, e, ⟨w', ?_, ?_⟩, fr, h1, h2, h3, h4⟩
   · intro x hx
     by_cases hxn : x = n
@@ -223,12 +229,15 @@ theorem FP.payOnly {d : Bytes} {obj : Nat} {s s' : PState} (h : FP d s) (hp : Pa
 
 theorem upd_step {d : Bytes} {s : PState} (h : FP d s) {obj : Nat} (ho : live s.tree obj = true) (f : Obj → Obj)
     (hf : KeepsLinks f) (hl : KeepsLive s.tree obj f) (hinfo : InfoOK (f (slot s.tree obj)).infoIndex)
-    (hm : (f (slot s.tree obj)).opcode = opMethod ↔ (slot s.tree obj).opcode = opMethod := by exact Iff.rfl) :
+    (hm : (f (slot s.tree obj)).opcode = (slot s.tree obj).opcode ∨
+      (isK (slot s.tree obj).opcode = false ∧ isK (f (slot s.tree obj)).opcode = false) := by exact Or.inl rfl)
+    (hn : isK (slot s.tree obj).opcode = true → (f (slot s.tree obj)).name = (slot s.tree obj).name ∧
+      (f (slot s.tree obj)).tableHandle = (slot s.tree obj).tableHandle := by intro _; exact ⟨rfl, rfl⟩) :
     ∃ s1, updObj obj f s = .ok ((), s1) ∧ FP d s1 ∧ PayOnly obj s s1 ∧ slot s1.tree obj = f (slot s.tree obj) ∧
       s1.r = s.r := by
   have hlt := live_lt ho
   have sl := sameLinks_setAt s.tree obj f hf hl
-  refine ⟨_, updObj_ex f hlt, ?_, PayOnly.ofSetAt obj s f hf hl hm, ?_, rfl⟩
+  refine ⟨_, updObj_ex f hlt, ?_, PayOnly.ofSetAt obj s f hf hl hm hn, ?_, rfl⟩
   · exact ⟨h.inv, treeG_setAt h.tree obj f hf hl (fun _ => hinfo),
       fun x hx => by show live (setAt s.tree obj f) x = true; rw [sl.live]; exact h.scopes x hx⟩
   · show slot (setAt s.tree obj f) obj = _
@@ -300,6 +309,19 @@ theorem newObject_step {d : Bytes} {s : PState} (h : FP d s) (op : Nat) (hsz : s
     rw [fr.livex x hne]; exact hx
   refine ⟨n, _, e', h.withTree ht hlx, ?_, rfl, hop', hinfo', ht.wf.index_eq n (live_lt fr.liven)⟩
   exact ⟨fr.nlive, fr.liven, ⟨hs1, hs2⟩, fr.same, fr.livex, fr.pn, fr.fin, rfl, rfl, ⟨rfl, rfl, rfl⟩, rfl, Nat.le_refl _⟩
+
+/-- the name (whatever the slot held: a reused slot keeps it) and the table handle of a new object -/
+theorem newObject_name {s s1 : PState} {op n : Nat} (e : newObject op s = .ok (n, s1)) :
+    (slot s1.tree n).name = (slot s.tree n).name ∧ (slot s1.tree n).tableHandle = s.tableHandle := by
+  unfold newObject at e
+  cases ht : s.tree.newObject op (pOpcodeTableIndex op true) s.tableHandle with
+  | error err => simp only [ht, bind, Except.bind] at e; cases e
+  | ok r =>
+    obtain ⟨t', i⟩ := r
+    simp only [ht, bind, Except.bind, pure, Except.pure, Except.ok.injEq, Prod.mk.injEq] at e
+    obtain ⟨rfl, rfl⟩ := e
+    obtain ⟨_, _, _, _, h5, h6⟩ := newObject_slot ht
+    exact ⟨h5, h6⟩
 
 /-- `append(obj, arg)` as a step: `obj` existed in `s0`, `arg` did not, and the objects of `s0` kept their parents -/
 theorem append_step {d : Bytes} {s0 s : PState} (h : FP d s) (w0 : WF s0.tree)
@@ -388,7 +410,7 @@ theorem setNameValue_tot {d : Bytes} (hd : d.size + 1024 ≤ 4294967296) {s : PS
   unfold Prog; rw [hr2]; exact hR.2.2.2
 
 theorem setOpcode_tot {d : Bytes} {s : PState} (h : FP d s) {obj : Nat} (ho : live s.tree obj = true) (op : Nat)
-    (hop : op ≠ pOpIntFreedObject) (hnm : op ≠ opMethod) (hcur : (slot s.tree obj).opcode ≠ opMethod) :
+    (hop : op ≠ pOpIntFreedObject) (hnm : isK op = false) (hcur : isK (slot s.tree obj).opcode = false) :
     ∃ a s', setOpcode obj op s = .ok (a, s') ∧ FP d s' ∧ PayOnly obj s s' ∧ s'.r = s.r ∧
       slot s'.tree obj = { slot s.tree obj with opcode := op } := by
   unfold setOpcode
@@ -398,7 +420,7 @@ theorem setOpcode_tot {d : Bytes} {s : PState} (h : FP d s) {obj : Nat} (ho : li
     · intro hc; exact absurd hc hop
     · intro hc; exact absurd hc (live_opcode ho)
   obtain ⟨s1, e1, h1, hp1, hsl, hr1⟩ := upd_step h ho (fun o => { o with opcode := op }) (by keeps_links) hl (h.tree.info obj ho)
-    ⟨fun hq => absurd hq hnm, fun hq => absurd hq hcur⟩
+    (Or.inr ⟨hcur, hnm⟩) (fun hq => by simp [hcur] at hq)
   exact ⟨(), s1, e1, h1, hp1, hr1, hsl⟩
 
 theorem finishSimpleArg_tot {d : Bytes} {s : PState} (h : FP d s) {obj : Nat} (ho : live s.tree obj = true) (res : PRes)
@@ -412,8 +434,8 @@ theorem finishSimpleArg_tot {d : Bytes} {s : PState} (h : FP d s) {obj : Nat} (h
   refine bind_ex e1 (pure_ex ⟨rfl, h1, hp1, hr1, by rw [hsl]⟩)
 
 theorem simpleNum_tot {d : Bytes} {s : PState} (h : FP d s) {obj : Nat} (ho : live s.tree obj = true) (op n : Nat)
-    (hop : op ≠ pOpIntFreedObject) (hinfo : InfoOK (pOpcodeTableIndex op true)) (hnm : op ≠ opMethod)
-    (hcur : (slot s.tree obj).opcode ≠ opMethod) :
+    (hop : op ≠ pOpIntFreedObject) (hinfo : InfoOK (pOpcodeTableIndex op true)) (hnm : isK op = false)
+    (hcur : isK (slot s.tree obj).opcode = false) :
     ∃ a s', simpleNum d obj op n s = .ok (a, s') ∧ a.1 = some obj ∧ FP d s' ∧ PayOnly obj s s' ∧
       (∃ v, (slot s'.tree obj).value = .u64 v) ∧ ((a.2 = .ok ∧ s'.r.offset = s.r.offset + n) ∨ a.2 = .failed) := by
   unfold simpleNum
@@ -428,7 +450,7 @@ theorem simpleNum_tot {d : Bytes} {s : PState} (h : FP d s) {obj : Nat} (ho : li
   rw [ha, hr3, ← hr1]; exact hres
 
 theorem simpleString_tot {d : Bytes} {s : PState} (h : FP d s) {obj : Nat} (ho : live s.tree obj = true)
-    (hcur : (slot s.tree obj).opcode ≠ opMethod) :
+    (hcur : isK (slot s.tree obj).opcode = false) :
     ∃ a s', simpleString d obj s = .ok (a, s') ∧ a.1 = some obj ∧ FP d s' ∧ PayOnly obj s s' ∧ Prog s s' a.2 := by
   unfold simpleString
   obtain ⟨_, s1, e1, h1, hp1, hr1, hsl1⟩ := setOpcode_tot h ho opStringPrefix (by decide) (by decide) hcur
@@ -443,7 +465,7 @@ theorem simpleString_tot {d : Bytes} {s : PState} (h : FP d s) {obj : Nat} (ho :
   rw [ha, hr3, ← hr1]; exact hres
 
 theorem simpleName_tot {d : Bytes} (hd : d.size + 1024 ≤ 4294967296) {s : PState} (h : FP d s) {obj : Nat}
-    (ho : live s.tree obj = true) (hcur : (slot s.tree obj).opcode ≠ opMethod) :
+    (ho : live s.tree obj = true) (hcur : isK (slot s.tree obj).opcode = false) :
     ∃ a s', simpleName d obj s = .ok (a, s') ∧ a.1 = some obj ∧ FP d s' ∧ PayOnly obj s s' ∧ Prog s s' a.2 := by
   unfold simpleName
   obtain ⟨_, s1, e1, h1, hp1, hr1, hsl1⟩ := setOpcode_tot h ho opIntNamePath (by decide) (by decide) hcur
@@ -460,7 +482,7 @@ theorem simpleName_tot {d : Bytes} (hd : d.size + 1024 ≤ 4294967296) {s : PSta
 /-- `parseSimpleArg(argType)`: one fresh detached object, its value set -/
 theorem parseSimpleArg_tot {d : Bytes} (hd : d.size + 1024 ≤ 4294967296) {s : PState} (h : FP d s)
     (hsz : s.tree.pool.size < INV) (argType : Nat) :
-    ∃ a s' n, parseSimpleArg d argType s = .ok (a, s') ∧ FP d s' ∧ Fresh1 n s s' ∧ (slot s'.tree n).opcode ≠ opMethod ∧
+    ∃ a s' n, parseSimpleArg d argType s = .ok (a, s') ∧ FP d s' ∧ Fresh1 n s s' ∧ isK (slot s'.tree n).opcode = false ∧
       ((a.1 = some n ∧ Prog s s' a.2 ∧ (IsNum argType → ∃ v, (slot s'.tree n).value = .u64 v)) ∨ a = (none, .failed)) := by
   unfold parseSimpleArg
   obtain ⟨n, s1, e1, h1, f1, hr1, hop1, _⟩ := newObject_step h 0 hsz (by decide) info_const.1
@@ -474,7 +496,7 @@ theorem parseSimpleArg_tot {d : Bytes} (hd : d.size + 1024 ≤ 4294967296) {s : 
       else if argType = argTypeString then simpleString d n
       else if argType = argTypeNameString then simpleName d n
       else pure (none, PRes.failed) : P (Option Nat × PRes)) s1 = .ok (a, s') ∧ FP d s' ∧ Fresh1 n s s' ∧
-      (slot s'.tree n).opcode ≠ opMethod ∧
+      isK (slot s'.tree n).opcode = false ∧
       ((a.1 = some n ∧ Prog s s' a.2 ∧ (IsNum argType → ∃ v, (slot s'.tree n).value = .u64 v)) ∨ a = (none, .failed)) := by
     obtain ⟨off, s2, e2, h2, hR2, hs2⟩ := lex_step (rel_offset d) h1
     refine bind_ex e2 ?_
@@ -485,19 +507,17 @@ theorem parseSimpleArg_tot {d : Bytes} (hd : d.size + 1024 ≤ 4294967296) {s : 
       (h2.tree.info _ hobj)
     refine bind_ex e3 ?_
     have hobj3 : live s3.tree n = true := by rw [hp3.links.live]; exact hobj
-    have hnm3 : (slot s3.tree n).opcode ≠ opMethod := by
-      intro hq
-      have := hp3.mth.1 hq
-      rw [ht2, hop1] at this
-      revert this; decide
+    have hnm3 : isK (slot s3.tree n).opcode = false := by
+      apply hp3.notK
+      rw [ht2, hop1]; decide
     have f3 : Fresh1 n s s3 :=
       Fresh1.thenPay f1 ((PayOnly.ofLex _ hs2 (by rw [hr2]) (by rw [hr2]; exact Nat.le_refl _)).trans hp3)
-    have num : ∀ op k, 1 ≤ k → op ≠ pOpIntFreedObject → op ≠ opMethod → InfoOK (pOpcodeTableIndex op true) → IsNum argType →
-        ∃ a s', simpleNum d n op k s3 = .ok (a, s') ∧ FP d s' ∧ Fresh1 n s s' ∧ (slot s'.tree n).opcode ≠ opMethod ∧
+    have num : ∀ op k, 1 ≤ k → op ≠ pOpIntFreedObject → isK op = false → InfoOK (pOpcodeTableIndex op true) → IsNum argType →
+        ∃ a s', simpleNum d n op k s3 = .ok (a, s') ∧ FP d s' ∧ Fresh1 n s s' ∧ isK (slot s'.tree n).opcode = false ∧
         ((a.1 = some n ∧ Prog s s' a.2 ∧ (IsNum argType → ∃ v, (slot s'.tree n).value = .u64 v)) ∨ a = (none, .failed)) := by
       intro op k hk hop hnm hinfo _
       obtain ⟨a, s4, e4, ha, h4, hp4, hv, hres⟩ := simpleNum_tot h3 hobj3 op k hop hinfo hnm hnm3
-      refine ⟨a, s4, e4, h4, f3.thenPay hp4, fun hq => hnm3 (hp4.mth.1 hq), Or.inl ⟨ha, ?_, fun _ => hv⟩⟩
+      refine ⟨a, s4, e4, h4, f3.thenPay hp4, hp4.notK hnm3, Or.inl ⟨ha, ?_, fun _ => hv⟩⟩
       have := prog_of_num hk hres
       unfold Prog at this ⊢
       have h03 : s.r.offset ≤ s3.r.offset := f3.off
@@ -517,7 +537,7 @@ theorem parseSimpleArg_tot {d : Bytes} (hd : d.size + 1024 ≤ 4294967296) {s : 
               intro hn; rcases hn with h | h | h | h <;> contradiction
             split
             · obtain ⟨a, s4, e4, ha, h4, hp4, hres⟩ := simpleString_tot h3 hobj3 hnm3
-              refine ⟨a, s4, e4, h4, f3.thenPay hp4, fun hq => hnm3 (hp4.mth.1 hq), Or.inl ⟨ha, ?_, fun hn => absurd hn notNum⟩⟩
+              refine ⟨a, s4, e4, h4, f3.thenPay hp4, hp4.notK hnm3, Or.inl ⟨ha, ?_, fun hn => absurd hn notNum⟩⟩
               unfold Prog at hres ⊢
               have h03 : s.r.offset ≤ s3.r.offset := f3.off
               rcases hres with ⟨ho, hl⟩ | hf
@@ -525,7 +545,7 @@ theorem parseSimpleArg_tot {d : Bytes} (hd : d.size + 1024 ≤ 4294967296) {s : 
               · exact Or.inr hf
             · split
               · obtain ⟨a, s4, e4, ha, h4, hp4, hres⟩ := simpleName_tot hd h3 hobj3 hnm3
-                refine ⟨a, s4, e4, h4, f3.thenPay hp4, fun hq => hnm3 (hp4.mth.1 hq), Or.inl ⟨ha, ?_, fun hn => absurd hn notNum⟩⟩
+                refine ⟨a, s4, e4, h4, f3.thenPay hp4, hp4.notK hnm3, Or.inl ⟨ha, ?_, fun hn => absurd hn notNum⟩⟩
                 unfold Prog at hres ⊢
                 have h03 : s.r.offset ≤ s3.r.offset := f3.off
                 rcases hres with ⟨ho, hl⟩ | hf
@@ -537,39 +557,42 @@ theorem parseSimpleArg_tot {d : Bytes} (hd : d.size + 1024 ≤ 4294967296) {s : 
 
 /-! ## field lists -/
 
-theorem setNameByte_tot {d : Bytes} {s : PState} (h : FP d s) {field : Nat} (hf : live s.tree field = true) (i : Nat) (b : UInt8) :
+theorem setNameByte_tot {d : Bytes} {s : PState} (h : FP d s) {field : Nat} (hf : live s.tree field = true) (i : Nat) (b : UInt8)
+    (hcur : isK (slot s.tree field).opcode = false) :
     ∃ a s', setNameByte field i b s = .ok (a, s') ∧ FP d s' ∧ PayOnly field s s' ∧ s'.r = s.r := by
   unfold setNameByte
   obtain ⟨s1, e1, h1, hp1, _, hr1⟩ := upd_step h hf
     (fun o => { o with name := Name.ofList ((o.name.toList.take i) ++ [b] ++ (o.name.toList.drop (i+1))) })
-    (by keeps_links) Iff.rfl (h.tree.info field hf)
+    (by keeps_links) Iff.rfl (h.tree.info field hf) (Or.inl rfl) (fun hq => by simp [hcur] at hq)
   exact ⟨(), s1, e1, h1, hp1, hr1⟩
 
 theorem readFieldName_tot {d : Bytes} {field : Nat} (n : Nat) : ∀ (i : Nat) {s : PState}, FP d s → live s.tree field = true →
+    isK (slot s.tree field).opcode = false →
     ∃ b s', readFieldName d field n i s = .ok (b, s') ∧ FP d s' ∧ PayOnly field s s' ∧
       (b = true → s'.r.offset = s.r.offset + n) := by
   induction n with
   | zero =>
-    intro i s h hf
+    intro i s h hf _
     unfold readFieldName
     exact pure_ex ⟨h, PayOnly.refl _ _, fun _ => rfl⟩
   | succ n ih =>
-    intro i s h hf
+    intro i s h hf hcur
     unfold readFieldName
     obtain ⟨ob, s1, e1, h1, hR, hs1⟩ := lex_step (rel_readByte d) h
     refine bind_ex e1 ?_
     have ht1 : s1.tree = s.tree := by rw [hs1]
     have hf1 : live s1.tree field = true := by rw [ht1]; exact hf
+    have hcur1 : isK (slot s1.tree field).opcode = false := by rw [ht1]; exact hcur
     rcases hR with ⟨hn, hr, _⟩ | ⟨b, hb, hr, hlt⟩
     · subst hn
-      obtain ⟨_, s2, e2, h2, hp2, hr2⟩ := setNameByte_tot h1 hf1 i 0
+      obtain ⟨_, s2, e2, h2, hp2, hr2⟩ := setNameByte_tot h1 hf1 i 0 hcur1
       refine bind_ex e2 (pure_ex ⟨h2, ?_, fun hc => by cases hc⟩)
       exact (PayOnly.ofLex field hs1 (by rw [hr]) (by rw [hr]; exact Nat.le_refl _)).trans hp2
     · subst hb
-      obtain ⟨_, s2, e2, h2, hp2, hr2⟩ := setNameByte_tot h1 hf1 i b
+      obtain ⟨_, s2, e2, h2, hp2, hr2⟩ := setNameByte_tot h1 hf1 i b hcur1
       refine bind_ex e2 ?_
       have hf2 : live s2.tree field = true := by rw [hp2.links.live]; exact hf1
-      obtain ⟨b', s3, e3, h3, hp3, hoff⟩ := ih (i + 1) h2 hf2
+      obtain ⟨b', s3, e3, h3, hp3, hoff⟩ := ih (i + 1) h2 hf2 (hp2.notK hcur1)
       refine ⟨b', s3, e3, h3, ?_, ?_⟩
       · exact ((PayOnly.ofLex field hs1 (by rw [hr]) (by rw [hr]; show s.r.offset ≤ s.r.offset + 1; omega)).trans hp2).trans hp3
       · intro hb'
@@ -578,10 +601,106 @@ theorem readFieldName_tot {d : Bytes} {field : Nat} (n : Nat) : ∀ (i : Nat) {s
         omega
 
 
+/-- the frame of the opcodes that carry an invariant (`isK`: `Method`, `Scope`): an object that existed keeps its
+opcode or moves between opcodes outside of `isK`, and a `Method` / `Scope` keeps its name -/
+structure KFr (s s' : PState) : Prop where
+  opK : ∀ x, live s.tree x = true → (slot s'.tree x).opcode = (slot s.tree x).opcode ∨
+    (isK (slot s.tree x).opcode = false ∧ isK (slot s'.tree x).opcode = false)
+  nameKK : ∀ x, live s.tree x = true → isK (slot s.tree x).opcode = true → (slot s'.tree x).name = (slot s.tree x).name ∧
+    (slot s'.tree x).tableHandle = (slot s.tree x).tableHandle
+  deadK : ∀ x, live s'.tree x = false → (slot s'.tree x).name = (slot s.tree x).name
+
+theorem KFr.isKeq {s s' : PState} (h : KFr s s') {x : Nat} (hx : live s.tree x = true) :
+    isK (slot s'.tree x).opcode = isK (slot s.tree x).opcode := by
+  rcases h.opK x hx with e | ⟨e1, e2⟩
+  · rw [e]
+  · rw [e1, e2]
+
+theorem KFr.mK {s s' : PState} (h : KFr s s') (x : Nat) (hx : live s.tree x = true) :
+    (slot s'.tree x).opcode = opMethod ↔ (slot s.tree x).opcode = opMethod := by
+  rcases h.opK x hx with e | ⟨e1, e2⟩
+  · rw [e]
+  · constructor
+    · intro hq; rw [hq, isK_method] at e2; cases e2
+    · intro hq; rw [hq, isK_method] at e1; cases e1
+
+theorem KFr.sK {s s' : PState} (h : KFr s s') (x : Nat) (hx : live s.tree x = true) :
+    (slot s'.tree x).opcode = opScope ↔ (slot s.tree x).opcode = opScope := by
+  rcases h.opK x hx with e | ⟨e1, e2⟩
+  · rw [e]
+  · constructor
+    · intro hq; rw [hq, isK_scope] at e2; cases e2
+    · intro hq; rw [hq, isK_scope] at e1; cases e1
+
+theorem KFr.nameK {s s' : PState} (h : KFr s s') (x : Nat) (hx : live s.tree x = true) (ho : (slot s.tree x).opcode = opMethod) :
+    (slot s'.tree x).name = (slot s.tree x).name := (h.nameKK x hx (by rw [ho]; exact isK_method)).1
+
+theorem KFr.nameS {s s' : PState} (h : KFr s s') (x : Nat) (hx : live s.tree x = true) (ho : (slot s.tree x).opcode = opScope) :
+    (slot s'.tree x).name = (slot s.tree x).name := (h.nameKK x hx (by rw [ho]; exact isK_scope)).1
+
+theorem KFr.bK {s s' : PState} (h : KFr s s') (x : Nat) (hx : live s.tree x = true) :
+    (slot s'.tree x).opcode = opIntScopeBlock ↔ (slot s.tree x).opcode = opIntScopeBlock := by
+  rcases h.opK x hx with e | ⟨e1, e2⟩
+  · rw [e]
+  · constructor
+    · intro hq; rw [hq, isK_block] at e2; cases e2
+    · intro hq; rw [hq, isK_block] at e1; cases e1
+
+theorem KFr.refl (s : PState) : KFr s s := ⟨fun _ _ => Or.inl rfl, fun _ _ _ => ⟨rfl, rfl⟩, fun _ _ => rfl⟩
+
+theorem KFr.trans {a b c : PState} (h1 : KFr a b) (h2 : KFr b c) (hl : ∀ x, live a.tree x = true → live b.tree x = true)
+    (hl2 : ∀ x, live b.tree x = true → live c.tree x = true) : KFr a c := by
+  refine ⟨?_, ?_, ?_⟩
+  · intro x hx
+    rcases h1.opK x hx with e1 | ⟨a1, b1⟩
+    · rcases h2.opK x (hl x hx) with e2 | ⟨a2, b2⟩
+      · exact Or.inl (by rw [e2, e1])
+      · exact Or.inr ⟨by rw [← e1]; exact a2, b2⟩
+    · refine Or.inr ⟨a1, ?_⟩
+      rw [h2.isKeq (hl x hx)]; exact b1
+  · intro x hx ho
+    have a := h1.nameKK x hx ho
+    have b := h2.nameKK x (hl x hx) (by rw [h1.isKeq hx]; exact ho)
+    exact ⟨by rw [b.1, a.1], by rw [b.2, a.2]⟩
+  · intro x hx
+    have hb : live b.tree x = false := by
+      cases hq : live b.tree x with
+      | false => rfl
+      | true => rw [hl2 x hq] at hx; cases hx
+    rw [h2.deadK x hx, h1.deadK x hb]
+
+theorem KFr.ofTree {s s' : PState} (ht : s'.tree = s.tree) : KFr s s' :=
+  ⟨fun _ _ => by rw [ht]; exact Or.inl rfl, fun _ _ _ => by rw [ht]; exact ⟨rfl, rfl⟩, fun _ _ => by rw [ht]⟩
+
+theorem KFr.ofPay {obj : Nat} {s s' : PState} (h : PayOnly obj s s') (ho : live s.tree obj = true) : KFr s s' := by
+  refine ⟨?_, ?_, ?_⟩
+  · intro x _
+    by_cases hx : x = obj
+    · rw [hx]; exact h.opc
+    · rw [h.others x hx]; exact Or.inl rfl
+  · intro x _ ho
+    by_cases hx : x = obj
+    · rw [hx] at ho ⊢; exact h.nmk ho
+    · rw [h.others x hx]; exact ⟨rfl, rfl⟩
+  · intro x hx
+    have hne : x ≠ obj := fun e => by rw [e, h.links.live, ho] at hx; cases hx
+    rw [h.others x hne]
+
+theorem KFr.ofSamePay {s s' : PState} (sp : SamePay s.tree s'.tree) : KFr s s' :=
+  ⟨fun x _ => Or.inl (congrArg (fun p => p.1) (sp.pay x)),
+   fun x _ _ => ⟨congrArg (fun p => p.2.2.2.1) (sp.pay x), congrArg (fun p => p.2.2.1) (sp.pay x)⟩,
+   fun x _ => congrArg (fun p => p.2.2.2.1) (sp.pay x)⟩
+
+theorem KFr.ofFresh {n : Nat} {s s' : PState} (h : Fresh1 n s s') : KFr s s' :=
+  ⟨fun x hx => by rw [h.old x (h.ne hx)]; exact Or.inl rfl, fun x hx _ => by rw [h.old x (h.ne hx)]; exact ⟨rfl, rfl⟩,
+   fun x hx => by
+     have hne : x ≠ n := fun e => by rw [e, h.liven] at hx; cases hx
+     rw [h.old x hne]⟩
+
 /-- steps that leave both stacks alone: the reader goes back at most `b` bytes, at most `m` objects are created,
 parents of existing objects are untouched.  `T` = the parents whose argument lists the step may change: outside of
 them the first-argument links, the sibling links and the payloads of attached objects are as before; no object
-becomes or stops being a `Method` and no new object is one. -/
+becomes or stops being a `Method` / `Scope` and no new object is one. -/
 structure GrowE (T : Nat → Prop) (b m : Nat) (s s' : PState) : Prop where
   offb : s.r.offset ≤ s'.r.offset + b
   pool : s.tree.pool.size ≤ s'.tree.pool.size
@@ -594,14 +713,25 @@ structure GrowE (T : Nat → Prop) (b m : Nat) (s s' : PState) : Prop where
   fiK : ∀ x, live s.tree x = true → ¬ T x → Fi s'.tree x = Fi s.tree x
   kidK : ∀ x, live s.tree x = true → C13.P s.tree x ≠ INV → ¬ T (C13.P s.tree x) →
     Nx s'.tree x = Nx s.tree x ∧ Pay (slot s'.tree x) = Pay (slot s.tree x)
-  mK : ∀ x, live s.tree x = true → ((slot s'.tree x).opcode = opMethod ↔ (slot s.tree x).opcode = opMethod)
-  newOp : ∀ y, live s.tree y = false → live s'.tree y = true → (slot s'.tree y).opcode ≠ opMethod
+  payK : ∀ x, live s.tree x = true → ¬ T x → (C13.P s.tree x ≠ INV ∨ x = 0) → Pay (slot s'.tree x) = Pay (slot s.tree x)
+  kfr : KFr s s'
+  newK : ∀ y, live s.tree y = false → live s'.tree y = true → isK (slot s'.tree y).opcode = false
 
 variable {T : Nat → Prop}
 
+theorem GrowE.mK {b m : Nat} {s s' : PState} (h : GrowE T b m s s') (x : Nat) (hx : live s.tree x = true) :
+    (slot s'.tree x).opcode = opMethod ↔ (slot s.tree x).opcode = opMethod := h.kfr.mK x hx
+theorem GrowE.nameK {b m : Nat} {s s' : PState} (h : GrowE T b m s s') (x : Nat) (hx : live s.tree x = true)
+    (ho : (slot s.tree x).opcode = opMethod) : (slot s'.tree x).name = (slot s.tree x).name := h.kfr.nameK x hx ho
+theorem GrowE.newOp {b m : Nat} {s s' : PState} (h : GrowE T b m s s') (y : Nat) (h1 : live s.tree y = false)
+    (h2 : live s'.tree y = true) : (slot s'.tree y).opcode ≠ opMethod := by
+  intro hq
+  have := h.newK y h1 h2
+  rw [hq, isK_method] at this; cases this
+
 theorem GrowE.refl (s : PState) : GrowE T 0 0 s s :=
   ⟨by omega, Nat.le_refl _, by omega, fun _ _ => rfl, fun _ h => h, rfl, rfl, ⟨rfl, rfl, rfl⟩,
-   fun _ _ _ => rfl, fun _ _ _ _ => ⟨rfl, rfl⟩, fun _ _ => Iff.rfl, fun y h1 h2 => by rw [h1] at h2; cases h2⟩
+   fun _ _ _ => rfl, fun _ _ _ _ => ⟨rfl, rfl⟩, fun _ _ _ _ => rfl, KFr.refl s, fun y h1 h2 => (by rw [h1] at h2; cases h2)⟩
 
 theorem GrowE.trans {b1 m1 b2 m2 : Nat} {a b c : PState} (h1 : GrowE T b1 m1 a b) (h2 : GrowE T b2 m2 b c) :
     GrowE T (b1 + b2) (m1 + m2) a c := by
@@ -609,28 +739,28 @@ theorem GrowE.trans {b1 m1 b2 m2 : Nat} {a b c : PState} (h1 : GrowE T b1 m1 a b
    fun x hx => by rw [h2.oldP x (h1.oldLive x hx), h1.oldP x hx], fun x hx => h2.oldLive x (h1.oldLive x hx),
    by rw [h2.scope, h1.scope],
    by rw [h2.pkg, h1.pkg], ⟨by rw [h2.same.1, h1.same.1], by rw [h2.same.2.1, h1.same.2.1], by rw [h2.same.2.2, h1.same.2.2]⟩,
-   ?_, ?_, ?_, ?_⟩
+   ?_, ?_, ?_, h1.kfr.trans h2.kfr h1.oldLive h2.oldLive, ?_⟩
   · intro x hx ht
     rw [h2.fiK x (h1.oldLive x hx) ht, h1.fiK x hx ht]
   · intro x hx hp ht
     obtain ⟨n1, p1⟩ := h1.kidK x hx hp ht
     obtain ⟨n2, p2⟩ := h2.kidK x (h1.oldLive x hx) (by rw [h1.oldP x hx]; exact hp) (by rw [h1.oldP x hx]; exact ht)
     exact ⟨by rw [n2, n1], by rw [p2, p1]⟩
-  · intro x hx
-    exact (h2.mK x (h1.oldLive x hx)).trans (h1.mK x hx)
+  · intro x hx ht hp
+    rw [h2.payK x (h1.oldLive x hx) ht (by rw [h1.oldP x hx]; exact hp), h1.payK x hx ht hp]
   · intro y hy hy'
     cases hb : live b.tree y with
-    | true => exact fun hq => h1.newOp y hy hb ((h2.mK y hb).1 hq)
-    | false => exact h2.newOp y hb hy'
+    | true => rw [h2.kfr.isKeq hb]; exact h1.newK y hy hb
+    | false => exact h2.newK y hb hy'
 
 theorem GrowE.weaken {b m b' m' : Nat} {a c : PState} (h : GrowE T b m a c) (hb : b ≤ b') (hm : m ≤ m') : GrowE T b' m' a c :=
   ⟨by have := h.offb; omega, h.pool, by have := h.poolUp; omega, h.oldP, h.oldLive, h.scope, h.pkg, h.same,
-   h.fiK, h.kidK, h.mK, h.newOp⟩
+   h.fiK, h.kidK, h.payK, h.kfr, h.newK⟩
 
 /-- the same growth with a re-proved offset bound -/
 theorem GrowE.reoff {b m b' m' : Nat} {a c : PState} (h : GrowE T b m a c) (hb : a.r.offset ≤ c.r.offset + b') (hm : m ≤ m') :
     GrowE T b' m' a c :=
-  ⟨hb, h.pool, by have := h.poolUp; omega, h.oldP, h.oldLive, h.scope, h.pkg, h.same, h.fiK, h.kidK, h.mK, h.newOp⟩
+  ⟨hb, h.pool, by have := h.poolUp; omega, h.oldP, h.oldLive, h.scope, h.pkg, h.same, h.fiK, h.kidK, h.payK, h.kfr, h.newK⟩
 
 /-- the same growth seen from a final state that differs from `c` in the reader only -/
 theorem GrowE.thenLex {b m b' : Nat} {a c c' : PState} (h : GrowE T b m a c) (hc : c' = { c with r := c'.r })
@@ -639,31 +769,38 @@ theorem GrowE.thenLex {b m b' : Nat} {a c c' : PState} (h : GrowE T b m a c) (hc
   refine ⟨hb, by rw [ht]; exact h.pool, by rw [ht]; exact h.poolUp, fun x hx => by rw [ht]; exact h.oldP x hx,
     fun x hx => by rw [ht]; exact h.oldLive x hx, by rw [hc]; exact h.scope, by rw [hc]; exact h.pkg, by rw [hc]; exact h.same,
     fun x hx hT => by rw [ht]; exact h.fiK x hx hT, fun x hx hp hT => by rw [ht]; exact h.kidK x hx hp hT,
-    fun x hx => by rw [ht]; exact h.mK x hx, fun y h1 h2 => by rw [ht] at h2 ⊢; exact h.newOp y h1 h2⟩
+    fun x hx hT hp => by rw [ht]; exact h.payK x hx hT hp,
+    ⟨fun x hx => by rw [ht]; exact h.kfr.opK x hx, fun x hx ho => by rw [ht]; exact h.kfr.nameKK x hx ho,
+     fun x hx => by rw [ht] at hx ⊢; exact h.kfr.deadK x hx⟩,
+    fun y h1 h2 => by rw [ht] at h2 ⊢; exact h.newK y h1 h2⟩
 
-/-- a payload-only step on a detached object -/
-theorem pay_growE {obj : Nat} {s s' : PState} (h : PayOnly obj s s') (hp : C13.P s.tree obj = INV) : GrowE T 0 0 s s' := by
+/-- a payload-only step on a detached object other than the root -/
+theorem pay_growE {obj : Nat} {s s' : PState} (h : PayOnly obj s s') (hp : C13.P s.tree obj = INV) (h0 : obj ≠ 0)
+    (ho : live s.tree obj = true) : GrowE T 0 0 s s' := by
   refine ⟨by have := h.off; omega, by rw [h.links.size]; exact Nat.le_refl _, by rw [h.links.size]; omega,
    fun x _ => h.links.p x, fun x hx => by rw [h.links.live]; exact hx, h.scope, h.pkg, h.same,
-   fun x _ _ => h.links.fi x, ?_, ?_, ?_⟩
+   fun x _ _ => h.links.fi x, ?_, ?_, KFr.ofPay h ho, ?_⟩
   · intro x _ hpx _
     have hne : x ≠ obj := fun e => hpx (by rw [e]; exact hp)
     exact ⟨h.links.nx x, by rw [h.others x hne]⟩
-  · intro x _
-    by_cases hx : x = obj
-    · rw [hx]; exact h.mth
-    · rw [h.others x hx]
+  · intro x _ _ hpx
+    have hne : x ≠ obj := by
+      intro e
+      rcases hpx with h1 | h1
+      · exact h1 (by rw [e]; exact hp)
+      · exact h0 (e ▸ h1)
+    rw [h.others x hne]
   · intro y h1 h2
     rw [h.links.live, h1] at h2; cases h2
 
-/-- a fresh object that is not a `Method` -/
-theorem Fresh1.growE {n : Nat} {s s' : PState} (h : Fresh1 n s s') (hnm : (slot s'.tree n).opcode ≠ opMethod) :
+/-- a fresh object that is neither a `Method` nor a `Scope` -/
+theorem Fresh1.growE {n : Nat} {s s' : PState} (h : Fresh1 n s s') (hnm : isK (slot s'.tree n).opcode = false) :
     GrowE T 0 1 s s' := by
   refine ⟨by have := h.off; omega, h.size.1, h.size.2,
    fun x hx => by unfold C13.P; rw [h.old x (h.ne hx)], fun x hx => by rw [h.livex x (h.ne hx)]; exact hx,
    h.scope, h.pkg, h.same, fun x hx _ => by unfold Fi; rw [h.old x (h.ne hx)],
    fun x hx _ _ => ⟨by unfold Nx; rw [h.old x (h.ne hx)], by rw [h.old x (h.ne hx)]⟩,
-   fun x hx => by rw [h.old x (h.ne hx)], ?_⟩
+   fun x hx _ _ => by rw [h.old x (h.ne hx)], KFr.ofFresh h, ?_⟩
   intro y h1 h2
   by_cases hy : y = n
   · rw [hy]; exact hnm
@@ -697,7 +834,7 @@ theorem GrowE.thenAppend {b m : Nat} {s s1 s2 : PState} (g : GrowE T b m s s1) {
   have hne : ∀ x, live s.tree x = true → x ≠ arg := fun x hx e => by rw [e, hnew] at hx; cases hx
   refine ⟨by rw [hr]; exact g.offb, by rw [hsz]; exact g.pool, by rw [hsz]; exact g.poolUp, ?_,
     fun x hx => by rw [hl]; exact g.oldLive x hx, by rw [hs2]; exact g.scope,
-    by rw [hs2]; exact g.pkg, by rw [hs2]; exact g.same, ?_, ?_, ?_, ?_⟩
+    by rw [hs2]; exact g.pkg, by rw [hs2]; exact g.same, ?_, ?_, ?_, ?_, ?_⟩
   · intro x hx
     rw [hP, if_neg (hne x hx)]
     exact g.oldP x hx
@@ -724,13 +861,13 @@ theorem GrowE.thenAppend {b m : Nat} {s s1 s2 : PState} (g : GrowE T b m s s1) {
         · rw [hla, hno] at h0; cases h0
     · obtain ⟨n1, p1⟩ := g.kidK x hx hp hTx
       exact ⟨n1, by rw [hpay, p1]⟩
-  · intro x hx
-    have ho : (slot s2.tree x).opcode = (slot s1.tree x).opcode := congrArg (fun p => p.1) (sp.pay x)
-    rw [ho]; exact g.mK x hx
+  · intro x hx hTx hpx
+    rw [sp.pay x]; exact g.payK x hx hTx hpx
+  · exact g.kfr.trans (KFr.ofSamePay sp) g.oldLive (fun x hx => by rw [hl]; exact hx)
   · intro y h1 h2
     have ho : (slot s2.tree y).opcode = (slot s1.tree y).opcode := congrArg (fun p => p.1) (sp.pay y)
     rw [ho]
-    exact g.newOp y h1 (by rw [← hl]; exact h2)
+    exact g.newK y h1 (by rw [← hl]; exact h2)
 
 /-- the frame part of `GrowE` on its own -/
 structure FrmS (T : Nat → Prop) (s s' : PState) : Prop where
@@ -739,28 +876,40 @@ structure FrmS (T : Nat → Prop) (s s' : PState) : Prop where
   fiK : ∀ x, live s.tree x = true → ¬ T x → Fi s'.tree x = Fi s.tree x
   kidK : ∀ x, live s.tree x = true → C13.P s.tree x ≠ INV → ¬ T (C13.P s.tree x) →
     Nx s'.tree x = Nx s.tree x ∧ Pay (slot s'.tree x) = Pay (slot s.tree x)
-  mK : ∀ x, live s.tree x = true → ((slot s'.tree x).opcode = opMethod ↔ (slot s.tree x).opcode = opMethod)
-  newOp : ∀ y, live s.tree y = false → live s'.tree y = true → (slot s'.tree y).opcode ≠ opMethod
+  payK : ∀ x, live s.tree x = true → ¬ T x → (C13.P s.tree x ≠ INV ∨ x = 0) → Pay (slot s'.tree x) = Pay (slot s.tree x)
+  kfr : KFr s s'
+  newK : ∀ y, live s.tree y = false → live s'.tree y = true → isK (slot s'.tree y).opcode = false
+
+theorem FrmS.mK {s s' : PState} (h : FrmS T s s') (x : Nat) (hx : live s.tree x = true) :
+    (slot s'.tree x).opcode = opMethod ↔ (slot s.tree x).opcode = opMethod := h.kfr.mK x hx
+theorem FrmS.nameK {s s' : PState} (h : FrmS T s s') (x : Nat) (hx : live s.tree x = true)
+    (ho : (slot s.tree x).opcode = opMethod) : (slot s'.tree x).name = (slot s.tree x).name := h.kfr.nameK x hx ho
+theorem FrmS.newOp {s s' : PState} (h : FrmS T s s') (y : Nat) (h1 : live s.tree y = false)
+    (h2 : live s'.tree y = true) : (slot s'.tree y).opcode ≠ opMethod := by
+  intro hq
+  have := h.newK y h1 h2
+  rw [hq, isK_method] at this; cases this
 
 theorem GrowE.frmS {b m : Nat} {s s' : PState} (g : GrowE T b m s s') : FrmS T s s' :=
-  ⟨g.oldP, g.oldLive, g.fiK, g.kidK, g.mK, g.newOp⟩
+  ⟨g.oldP, g.oldLive, g.fiK, g.kidK, g.payK, g.kfr, g.newK⟩
 
 theorem FrmS.refl (s : PState) : FrmS T s s := (GrowE.refl (T := T) s).frmS
 
 theorem FrmS.trans {a b c : PState} (h1 : FrmS T a b) (h2 : FrmS T b c) : FrmS T a c := by
-  refine ⟨fun x hx => by rw [h2.oldP x (h1.oldLive x hx), h1.oldP x hx], fun x hx => h2.oldLive x (h1.oldLive x hx), ?_, ?_, ?_, ?_⟩
+  refine ⟨fun x hx => by rw [h2.oldP x (h1.oldLive x hx), h1.oldP x hx], fun x hx => h2.oldLive x (h1.oldLive x hx), ?_, ?_, ?_,
+    h1.kfr.trans h2.kfr h1.oldLive h2.oldLive, ?_⟩
   · intro x hx ht
     rw [h2.fiK x (h1.oldLive x hx) ht, h1.fiK x hx ht]
   · intro x hx hp ht
     obtain ⟨n1, p1⟩ := h1.kidK x hx hp ht
     obtain ⟨n2, p2⟩ := h2.kidK x (h1.oldLive x hx) (by rw [h1.oldP x hx]; exact hp) (by rw [h1.oldP x hx]; exact ht)
     exact ⟨by rw [n2, n1], by rw [p2, p1]⟩
-  · intro x hx
-    exact (h2.mK x (h1.oldLive x hx)).trans (h1.mK x hx)
+  · intro x hx ht hp
+    rw [h2.payK x (h1.oldLive x hx) ht (by rw [h1.oldP x hx]; exact hp), h1.payK x hx ht hp]
   · intro y hy hy'
     cases hb : live b.tree y with
-    | true => exact fun hq => h1.newOp y hy hb ((h2.mK y hb).1 hq)
-    | false => exact h2.newOp y hb hy'
+    | true => rw [h2.kfr.isKeq hb]; exact h1.newK y hy hb
+    | false => exact h2.newK y hb hy'
 
 /-- growth up to `s1`, then an `appendAfter`, under a parent in `T`, of an object that did not exist in the base state -/
 theorem GrowE.thenAppendAfter {b m : Nat} {s s1 s2 : PState} (g : GrowE T b m s s1) {obj arg nextTo : Nat}
@@ -775,7 +924,7 @@ theorem GrowE.thenAppendAfter {b m : Nat} {s s1 s2 : PState} (g : GrowE T b m s 
   have hne : ∀ x, live s.tree x = true → x ≠ arg := fun x hx e => by rw [e, hnew] at hx; cases hx
   refine ⟨by rw [hr]; exact g.offb, by rw [hsz]; exact g.pool, by rw [hsz]; exact g.poolUp, ?_,
     fun x hx => by rw [hl]; exact g.oldLive x hx, by rw [hs2]; exact g.scope,
-    by rw [hs2]; exact g.pkg, by rw [hs2]; exact g.same, ?_, ?_, ?_, ?_⟩
+    by rw [hs2]; exact g.pkg, by rw [hs2]; exact g.same, ?_, ?_, ?_, ?_, ?_⟩
   · intro x hx
     rw [hP, if_neg (hne x hx)]
     exact g.oldP x hx
@@ -792,13 +941,13 @@ theorem GrowE.thenAppendAfter {b m : Nat} {s s1 s2 : PState} (g : GrowE T b m s 
       exact hTx (by rw [← g.oldP x hx, hpn]; exact hT)
     · obtain ⟨n1, p1⟩ := g.kidK x hx hp hTx
       exact ⟨n1, by rw [hpay, p1]⟩
-  · intro x hx
-    have ho : (slot s2.tree x).opcode = (slot s1.tree x).opcode := congrArg (fun p => p.1) (sp.pay x)
-    rw [ho]; exact g.mK x hx
+  · intro x hx hTx hpx
+    rw [sp.pay x]; exact g.payK x hx hTx hpx
+  · exact g.kfr.trans (KFr.ofSamePay sp) g.oldLive (fun x hx => by rw [hl]; exact hx)
   · intro y h1 h2
     have ho : (slot s2.tree y).opcode = (slot s1.tree y).opcode := congrArg (fun p => p.1) (sp.pay y)
     rw [ho]
-    exact g.newOp y h1 (by rw [← hl]; exact h2)
+    exact g.newK y h1 (by rw [← hl]; exact h2)
 
 /-- what the field-list loop needs to know about its object and its insertion point -/
 def FieldInv (s : PState) (curObj : Nat) (st : FieldSt) : Prop :=
@@ -918,14 +1067,11 @@ theorem fieldNamed_tot {d : Bytes} {s : PState} (h : FP d s) (curObj : Nat) (st 
     refine bind_ex e4 ?_
     have hf4 : live s4.tree n = true := by rw [hp4.links.live]; exact hf3
     obtain ⟨b, s5, e5, h5, hp5, hoff5⟩ := readFieldName_tot (d := d) (field := n) Gen.C12.amlNameLen 0 h4 hf4
+      (hp4.notK (by rw [ht3, hop2]; decide))
     refine bind_ex e5 ?_
     have p25 : PayOnly n s2 s5 := ((PayOnly.ofLex _ hs3 (by rw [hr3]) (by rw [hr3]; exact Nat.le_refl _)).trans hp4).trans hp5
     have f5 : Fresh1 n s1 s5 := f2.thenPay p25
-    have hnm5 : (slot s5.tree n).opcode ≠ opMethod := by
-      intro hq
-      have := p25.mth.1 hq
-      rw [hop2] at this
-      revert this; decide
+    have hnm5 : isK (slot s5.tree n).opcode = false := p25.notK (by rw [hop2]; decide)
     have g15 : GrowE T 0 1 s1 s5 := f5.growE hnm5
     have g5 : GrowE T 1 1 s s5 := g1.trans g15
     cases b with
@@ -949,7 +1095,10 @@ theorem fieldNamed_tot {d : Bytes} {s : PState} (h : FP d s) (curObj : Nat) (st 
           (fun o => { o with value := Val.field st.nextFieldOffset pr.1 st.accessLength st.accessType st.accessAttrib st.lockType st.updateType st.connectionIndex (slot s6.tree curObj).index })
           (by keeps_links) Iff.rfl (h6.tree.info _ hfield6)
         refine bind_ex e7 ?_
-        have g17 : GrowE T 0 1 s1 s7 := g16.trans (pay_growE hp7 (by rw [ht6]; exact f5.pn))
+        have hn0 : n ≠ 0 := fun e => by
+          have := h1.tree.root
+          rw [← e, f2.nlive] at this; cases this
+        have g17 : GrowE T 0 1 s1 s7 := g16.trans (pay_growE hp7 (by rw [ht6]; exact f5.pn) hn0 hfield6)
         have g7 : GrowE T 1 1 s s7 := g1.trans g17
         have fi7 : FieldInv s7 curObj st := hfi.mono g7
         have hpar : C13.P s7.tree curObj = (slot s6.tree curObj).parentIndex := by
@@ -1007,7 +1156,7 @@ theorem fieldNamed_tot {d : Bytes} {s : PState} (h : FP d s) (curObj : Nat) (st 
 /-- `parseByteList(obj, n)` when the `n` bytes fit below `pkgEnd` -/
 theorem parseByteList_tot {d : Bytes} (hd : d.size + 1024 ≤ 4294967296) {s : PState} (h : FP d s) {obj : Nat}
     (ho : live s.tree obj = true) (n : Nat) (hfit : s.r.offset + n ≤ s.r.pkgEnd)
-    (hcur : (slot s.tree obj).opcode ≠ opMethod) :
+    (hcur : isK (slot s.tree obj).opcode = false) :
     ∃ a s', parseByteList d obj n s = .ok (a, s') ∧ FP d s' ∧ PayOnly obj s s' ∧ s'.r.offset = s.r.offset + n := by
   unfold parseByteList
   have hl : KeepsLive s.tree obj (fun o => { o with opcode := opIntByteList }) := by
@@ -1015,7 +1164,7 @@ theorem parseByteList_tot {d : Bytes} (hd : d.size + 1024 ≤ 4294967296) {s : P
     have hne : opIntByteList ≠ pOpIntFreedObject := by decide
     exact ⟨fun hc => absurd hc hne, fun hc => absurd hc (live_opcode ho)⟩
   obtain ⟨s1, e1, h1, hp1, _, hr1⟩ := upd_step h ho (fun o => { o with opcode := opIntByteList }) (by keeps_links) hl
-    (h.tree.info obj ho) ⟨fun hq => absurd (show opIntByteList = opMethod from hq) (by decide), fun hq => absurd hq hcur⟩
+    (h.tree.info obj ho) (Or.inr ⟨hcur, (show isK opIntByteList = false by decide)⟩) (fun hq => by simp [hcur] at hq)
   refine bind_ex e1 ?_
   have ho1 : live s1.tree obj = true := by rw [hp1.links.live]; exact ho
   obtain ⟨s2, e2, h2, hp2, _, hr2⟩ := upd_step h1 ho1
@@ -1064,11 +1213,7 @@ theorem connName_tot {d : Bytes} (hd : d.size + 1024 ≤ 4294967296) {s : PState
   refine bind_ex e5 ?_
   have p25 : PayOnly n s2 s5 := ((PayOnly.ofLex _ hs3 (by rw [hr3]) (by rw [hr3]; exact Nat.le_refl _)).trans hp4).trans hp5
   have f5 : Fresh1 n s1 s5 := f2.thenPay p25
-  have hnm5 : (slot s5.tree n).opcode ≠ opMethod := by
-    intro hq
-    have := p25.mth.1 hq
-    rw [hop2] at this
-    revert this; decide
+  have hnm5 : isK (slot s5.tree n).opcode = false := p25.notK (by rw [hop2]; decide)
   have g5 : GrowE T 1 1 s s5 := g1.trans (f5.growE hnm5)
   by_cases hres : res = .ok
   · rw [if_neg (by rw [hres]; decide)]
@@ -1144,14 +1289,14 @@ theorem connBufferFinish_tot {d : Bytes} (hd : d.size + 268435456 ≤ 4294967296
     obtain ⟨n, s1, e1, h1, f1, hr1, hop1, _⟩ := newObject_step h opIntByteList hsz (by decide) info_const.2.2.2.2.2.2.2.1
     refine bind_ex e1 ?_
     have hc1 : live s1.tree n = true := f1.liven
-    have hnm1 : (slot s1.tree n).opcode ≠ opMethod := by rw [hop1]; decide
+    have hnm1 : isK (slot s1.tree n).opcode = false := by rw [hop1]; decide
     obtain ⟨s2, e2, h2, hp2, _, hr2⟩ := upd_step h1 hc1 (fun o => { o with amlOffset := origOffset }) (by keeps_links) Iff.rfl
       (h1.tree.info _ hc1)
     refine bind_ex e2 ?_
     have hc2 : live s2.tree n = true := by rw [hp2.links.live]; exact hc1
     have hle : u32 dataLen ≤ dataLen := Nat.mod_le _ _
     obtain ⟨_, s3, e3, h3, hp3, hoff3⟩ := parseByteList_tot hd' h2 hc2 (u32 dataLen) (by rw [hr2, hr1]; omega)
-      (fun hq => hnm1 (hp2.mth.1 hq))
+      (hp2.notK hnm1)
     refine bind_ex e3 ?_
     obtain ⟨_, s4, e4, h4, hR4, hs4⟩ := lex_step (rel_setPkgEnd d origPkgEnd) h3
     refine bind_ex e4 ?_
@@ -1165,7 +1310,7 @@ theorem connBufferFinish_tot {d : Bytes} (hd : d.size + 268435456 ≤ 4294967296
     have ht4 : s4.tree = s3.tree := by rw [hs4]
     have ht5 : s5.tree = s4.tree := by rw [hs5]
     have g5 : GrowE T (s.r.offset - origOffset) 1 s s5 := by
-      have g3 : GrowE T 0 1 s s3 := f3.growE (fun hq => hnm1 ((hp2.trans hp3).mth.1 hq))
+      have g3 : GrowE T 0 1 s s3 := f3.growE ((hp2.trans hp3).notK hnm1)
       exact g3.thenLex (c' := s5) (by rw [hs5, hs4]) (by omega)
     refine pure_ex ⟨h5, g5, ?_⟩
     intro c hc
@@ -1242,7 +1387,7 @@ theorem fieldConnection_tot {d : Bytes} (hd : d.size + 268435456 ≤ 4294967296)
     refine bind_ex e2 ?_
     refine bind_ex (getObj_live f2.liven) ?_
     have hcur1 : live s1.tree curObj = true := by rw [ht1]; exact hc
-    have hnm2 : (slot s2.tree n).opcode ≠ opMethod := by rw [hnew2.1]; decide
+    have hnm2 : isK (slot s2.tree n).opcode = false := by rw [hnew2.1]; decide
     have g12 : GrowE T 0 1 s1 s2 := f2.growE hnm2
     obtain ⟨s3, e3, h3, hs3, hsz3, sp3, hl3, hP3, _, hNx3, hFi3⟩ := append_step h2 h1.tree.wf g12.hold hcur1 f2.nlive f2.liven f2.pn
     refine bind_ex e3 ?_
